@@ -1,6 +1,7 @@
 package props
 
 import (
+	"encoding/json"
 	"encoding/hex"
 	"fmt"
 	"math/big"
@@ -321,6 +322,29 @@ func c12One(c *core.Ctx, r *core.Result, w *World, era drive.Era, sc c12Scenario
 	if !out.Reached {
 		r.Count("inconclusive-"+outcomeClass(out), 1)
 		return
+	}
+	// what the API reports for a height is what the table holds for it (get-pegnet-rates is the user's view of the rates)
+	if lv, e := ReadLedger(d.DBFile()); e == nil {
+		api := newAPI(d)
+		for hh := h - 2; hh <= b.Chain.Tip(); hh++ {
+			raw, aerr := api.call("get-pegnet-rates", map[string]interface{}{"height": hh})
+			rows := lv.Rates[hh]
+			var got map[string]uint64
+			if aerr == nil {
+				json.Unmarshal(raw, &got)
+			}
+			same := len(got) == len(rows)
+			for k, x := range rows {
+				if got[k] != x {
+					same = false
+				}
+			}
+			if !same {
+				r.Violate(core.Violation{Key: key, Signature: "C12:get-pegnet-rates-differs-from-recorded-rates", Desc: fmt.Sprintf("get-pegnet-rates(height %d) returns %d rates (error %v), the table holds %d", hh, len(got), aerr, len(rows)),
+					Detail: []string{fmt.Sprint(sortedRates(rows)), string(raw)}})
+				break
+			}
+		}
 	}
 	d.Close()
 	run.D = nil
